@@ -64,12 +64,21 @@ impl Reg {
     /// Create classical register with a given number of bits
     /// and an initial state
     pub fn with_state(q_num: N, state: N) -> Self {
-        let q_mask = 1_usize.wrapping_shl(q_num as u32).wrapping_sub(1_usize);
+        let q_mask = Self::mask_of(q_num);
 
         Self {
-            value: state,
+            value: state & q_mask,
             q_num,
             q_mask,
+        }
+    }
+
+    #[inline]
+    fn mask_of(q_num: N) -> N {
+        if q_num >= N::BITS as N {
+            !0_usize
+        } else {
+            (1_usize << q_num).wrapping_sub(1_usize)
         }
     }
 
@@ -79,7 +88,8 @@ impl Reg {
 
     pub fn set_num(&mut self, q_num: N) {
         self.q_num = q_num;
-        self.q_mask = 1_usize.wrapping_shl(q_num as u32).wrapping_sub(1_usize);
+        self.q_mask = Self::mask_of(q_num);
+        self.value &= self.q_mask;
     }
 
     pub(crate) fn reset(&mut self, i_state: N) {
